@@ -814,6 +814,8 @@ std::string asg_op(std::string const &k, T const &a, T const &b)
 
 using err = fcppt::either::error<E>;
 
+std::string op_vv(std::vector<std::string> const &t);
+
 std::string op2(std::vector<std::string> const &t)
 {
   std::string const &o = t[0];
@@ -1231,6 +1233,185 @@ std::string op2(std::vector<std::string> const &t)
     return show(fcppt::monad::return_<opt<C>>(tok<A>(t[1])));
   if (o == "m.ret.e" && n == 2)
     return show(fcppt::monad::return_<eith<E, C>>(tok<A>(t[1])));
+  return op_vv(t);
+}
+
+// ------------------------------------------------------------------ the valueless state (is_invalid)
+// `thrower`'s copy / move construction throws when the source is armed; assignment does not.  Assigning a variant that
+// holds an armed thrower to one that holds an A destroys the A first: the target is left valueless.
+struct thrower
+{
+  bool armed{false};
+  thrower() = default;
+  thrower(thrower const &o) : armed{o.armed}
+  {
+    if (o.armed)
+      throw E2{};
+  }
+  thrower(thrower &&o) : armed{o.armed} // NOLINT
+  {
+    if (o.armed)
+      throw E2{};
+  }
+  thrower &operator=(thrower const &o)
+  {
+    armed = o.armed;
+    return *this;
+  }
+  thrower &operator=(thrower &&o) // NOLINT
+  {
+    armed = o.armed;
+    return *this;
+  }
+  ~thrower() = default;
+  friend bool operator==(thrower const &, thrower const &) { return true; }
+  friend bool operator!=(thrower const &, thrower const &) { return false; }
+  friend bool operator<(thrower const &, thrower const &) { return false; }
+  friend std::ostream &operator<<(std::ostream &s, thrower const &) { return s << 'T'; }
+};
+
+using var2 = fcppt::variant::object<A, thrower>;
+
+std::string show2(var2 const &x)
+{
+  switch (x.impl().index())
+  {
+  case 0: return "A" + std::to_string(std::get<0>(x.impl()).v());
+  case 1: return "T";
+  default: return "V";
+  }
+}
+
+// A<d>, T (holds an unarmed thrower), V (valueless, made by a throwing assignment)
+var2 mk2(std::string const &s)
+{
+  if (s == "T")
+    return var2{thrower{}};
+  if (s == "V")
+  {
+    var2 x{A{0}};
+    var2 y{thrower{}};
+    fcppt::variant::get_unsafe<thrower>(y).armed = true;
+    try
+    {
+      x = y;
+    }
+    catch (E2 const &)
+    {
+    }
+    return x;
+  }
+  if (s.size() == 2 && s[0] == 'A')
+  {
+    char const *p = s.c_str() + 1;
+    return var2{io<A>::rd(p)};
+  }
+  throw bad_op{};
+}
+
+std::string op_vv(std::vector<std::string> const &t)
+{
+  std::string const &o = t[0];
+  std::size_t const n = t.size();
+  namespace fv = fcppt::variant;
+  if (o == "vv.assign" && n == 4)
+  {
+    var2 x{mk2(t[1])};
+    var2 y{mk2(t[2])};
+    bool const armed{tok<bool>(t[3])};
+    if (armed)
+    {
+      if (!fv::holds_type<thrower>(y))
+        throw bad_op{};
+      fv::get_unsafe<thrower>(y).armed = true;
+    }
+    bool threw{false};
+    try
+    {
+      x = y;
+    }
+    catch (E2 const &)
+    {
+      threw = true;
+    }
+    return show2(x) + " " + show(threw);
+  }
+  if (o == "vv.obs" && n == 3)
+  {
+    var2 const x{mk2(t[1])};
+    std::string const &k = t[2];
+    if (k == "invalid")
+      return show(x.is_invalid());
+    if (k == "index")
+      return x.type_index() == std::variant_npos ? "npos" : std::to_string(x.type_index());
+    if (k == "holds")
+      return "[" + show(fv::holds_type<A>(x)) + show(fv::holds_type<thrower>(x)) + "]";
+    if (k == "to_opt")
+      return show(fv::to_optional<A>(x));
+    if (k == "to_opt_ref")
+    {
+      auto const r{fv::to_optional_ref<A const>(x)};
+      return r.has_value() ? "J" + show(r.get_unsafe().get()) : std::string{"N"};
+    }
+    auto const f = [](auto const &a) -> int
+    {
+      if constexpr (std::is_same_v<std::remove_cvref_t<decltype(a)>, A>)
+      {
+        lg("a", {a.v()});
+        return a.v();
+      }
+      else
+      {
+        lg("t", {});
+        return 7;
+      }
+    };
+    if (k == "apply")
+      return std::to_string(fv::apply(f, x));
+    if (k == "match")
+      return std::to_string(fv::match(
+          x,
+          [](A const &a) -> int
+          {
+            lg("a", {a.v()});
+            return a.v();
+          },
+          [](thrower const &) -> int
+          {
+            lg("t", {});
+            return 7;
+          }));
+    if (k == "tinfo")
+    {
+      std::type_info const &ti{fv::type_info(x)};
+      return ti == typeid(A) ? "0" : ti == typeid(thrower) ? "1" : "9";
+    }
+    if (k == "out")
+    {
+      std::ostringstream os;
+      os << x;
+      return os.str();
+    }
+    throw bad_op{};
+  }
+  if (o == "vv.cmp" && n == 3)
+  {
+    var2 const l{mk2(t[1])}, r{mk2(t[2])};
+    return "[" + show(l == r) + show(l != r) + show(l < r) + "]";
+  }
+  if (o == "vv.compare" && n == 4)
+  {
+    var2 const l{mk2(t[1])}, r{mk2(t[2])};
+    bool const res{tok<bool>(t[3])};
+    return show(fv::compare(l, r, [res](auto const &a, auto const &) -> bool
+                            {
+                              if constexpr (std::is_same_v<std::remove_cvref_t<decltype(a)>, A>)
+                                lg("c", {0});
+                              else
+                                lg("c", {1});
+                              return res;
+                            }));
+  }
   throw bad_op{};
 }
 
